@@ -33,9 +33,11 @@ def rule_oracle(rl, st, tr):
         for edge in (s, s + d):
             if abs(st['t'] - edge) <= 1e-9 * max(1.0, abs(edge)) and st['t'] != edge:
                 return ('skip', 'time within rounding of a window edge')
-        if abs(st['t'] - s) <= 1e-9 * max(1.0, abs(s)) and (rl['start'][1] != st['tu']):
+        # units the instant has been expressed in (created in the time step's unit, possibly converted by a load callback)
+        tus = set(st.get('tus') or [st['tu']])
+        if abs(st['t'] - s) <= 1e-9 * max(1.0, abs(s)) and (tus != {rl['start'][1]}):
             return ('skip', 'time within rounding of a window edge')
-        if abs(st['t'] - s - d) <= 1e-9 * max(1.0, abs(s + d)) and not (rl['start'][1] == rl['dur'][1] == st['tu']):
+        if abs(st['t'] - s - d) <= 1e-9 * max(1.0, abs(s + d)) and not (tus == {rl['start'][1]} and rl['start'][1] == rl['dur'][1]):
             return ('skip', 'time within rounding of a window edge')
         return ('val', float(rl['value'])) if s <= st['t'] <= s + d else ('none',)
     x = st['pos'][rl['enc'] % len(st['pos'])]
@@ -139,6 +141,19 @@ def states_of(tr):
     return out
 
 
+def add_time_units(spec, tr, states):
+    own = sim.owner_at(spec, tr)
+    cb = (spec['load'].get('inplace') or [None, None, None])[2]
+    for j, st in enumerate(states):
+        tus = {st['tu']}
+        if j < len(own) and own[j] is not None:
+            tus.add(spec['ops'][own[j]]['dt'][1])
+        if cb is not None:
+            tus.add(cb)
+        st['tus'] = sorted(tus)
+    return states
+
+
 def eval_controlled(ctx, specs, props):
     traces = []
     lines = []
@@ -176,7 +191,7 @@ def eval_controlled(ctx, specs, props):
                 ctx.count('rule ' + rl['type'])
         m = tr['motor']
         skipped = None
-        states = states_of(tr)
+        states = add_time_units(spec, tr, states_of(tr))
         for j, st in enumerate(states):
             rules_j = in_force[j]
             if rules_j is None:
